@@ -234,66 +234,71 @@ def run_case(case, ctx):
   for l in model.layers[1:]:
     ins[l.name] = prev
     prev = outs[l.name]
-  with contextlib.redirect_stdout(io.StringIO()), contextlib.redirect_stderr(io.StringIO()):
-    ok, qt = ctx.call(dict(base, op="QTools"), lambda: run_qtools.QTools(
-        model, process="horowitz", source_quantizers=[src_q], is_inference=False, weights_path=None,
-        keras_quantizer="fp32", keras_accumulator="fp32", for_reference=False,
-        model_weights_already_quantized=True, hw_weight_dict=hw))
-  if not ok:
-    return
-  ctx.count("models")
-  lmap = qt._layer_map["layer_data_type_map"]  # pylint: disable=protected-access
-  by_name = {l.name: e for l, e in lmap.items()}
   near = False
-  for l in model.layers[1:]:
-    cn = type(l).__name__
-    e = by_name.get(l.name)
-    if e is None:
+  base0 = base
+  for inference in (False, True):
+    # the same observed tensors are checked against the map built for training and for inference
+    base = dict(base0, inference=inference)
+    with contextlib.redirect_stdout(io.StringIO()), contextlib.redirect_stderr(io.StringIO()):
+      ok, qt = ctx.call(dict(base, op="QTools"), lambda: run_qtools.QTools(
+          model, process="horowitz", source_quantizers=[src_q], is_inference=inference, weights_path=None,
+          keras_quantizer="fp32", keras_accumulator="fp32", for_reference=False,
+          model_weights_already_quantized=True, hw_weight_dict=hw))
+    if not ok:
       continue
-    sig = dict(base, layer=cn)
-    if cn in ("QDense", "QConv1D", "QConv2D", "QDepthwiseConv2D"):
-      fam = fams.get(l.name)
-      sig["weights"] = fam
-      ctx.count("layers_checked")
-      qs = l.get_quantizers()
-      ws = l.get_weights()
-      wt = ty.from_reported(entry_get(e, "weight_quantizer"))
-      # the tensor the running layer multiplies with: its quantizer applied to the stored (exported) weight;
-      # this is also the call that leaves quantizer.scale in the state QTools read
-      kq = np.asarray(qs[0](tf.constant(ws[0]))) if qs[0] is not None else np.asarray(ws[0])
-      if len(ws) > 1 and qs[1] is not None:
-        ws = [ws[0], np.asarray(qs[1](tf.constant(ws[1])))]
-      scale = None
-      if fam == "auto_po2":
-        scale = np.asarray(qs[0].scale, dtype=np.float64)
-        # the reported weight type describes the integer part; the stored weight carries the po2 scale
-        kcodes = kq.astype(np.float64) / np.broadcast_to(scale, kq.shape)
-        check_values(ctx, wt, kcodes, sig, "weight", "weight_values_checked")
-      else:
-        check_values(ctx, wt, kq, sig, "weight", "weight_values_checked")
-      if l.use_bias:
-        bt = ty.from_reported(entry_get(e, "bias_quantizer"))
-        check_values(ctx, bt, ws[1], sig, "bias", "weight_values_checked")
-      acc = entry_get(e, "fused_accumulator") if fam == "auto_po2" else entry_get(e, "accumulator")
-      at = ty.from_reported(acc.output)
-      pre = outs[l.name]
-      # float32 exactness guard: every partial sum must stay below 2^23 LSBs
-      lsb_in = float(np.min(np.abs(ins[l.name][ins[l.name] != 0]))) if np.any(ins[l.name] != 0) else 1.0
-      lsb_w = float(np.min(np.abs(kq[kq != 0]))) if np.any(kq != 0) else 1.0
-      fan_in = int(np.prod(kq.shape[:-1])) if cn != "QDepthwiseConv2D" else int(np.prod(kq.shape[:2]))
-      if np.abs(pre).max() / max(lsb_in * lsb_w, 1e-30) > 2.0 ** 22:
-        ctx.skip("beyond_float32_exactness")
+    ctx.count("models")
+    lmap = qt._layer_map["layer_data_type_map"]  # pylint: disable=protected-access
+    by_name = {l.name: e for l, e in lmap.items()}
+    for l in model.layers[1:]:
+      cn = type(l).__name__
+      e = by_name.get(l.name)
+      if e is None:
         continue
-      okv = check_values(ctx, at, pre, sig, "preactivation", "preactivation_values_checked", shifted=(fam == "auto_po2"))
-      # how close did the workload come to the reported range?
-      if at.kind == "fixed" and okv:
-        top = float(ty.vmax(at))
-        m = float(np.abs(pre).max())
-        if m > 0 and top / m < 4.0:
-          near = True
-    elif cn == "QActivation":
-      ot = ty.from_reported(entry_get(e, "output_quantizer"))
-      check_values(ctx, ot, outs[l.name], dict(sig, activation=type(l.quantizer).__name__), "activation", "activation_values_checked")
+      sig = dict(base, layer=cn)
+      if cn in ("QDense", "QConv1D", "QConv2D", "QDepthwiseConv2D"):
+        fam = fams.get(l.name)
+        sig["weights"] = fam
+        ctx.count("layers_checked")
+        qs = l.get_quantizers()
+        ws = l.get_weights()
+        wt = ty.from_reported(entry_get(e, "weight_quantizer"))
+        # the tensor the running layer multiplies with: its quantizer applied to the stored (exported) weight;
+        # this is also the call that leaves quantizer.scale in the state QTools read
+        kq = np.asarray(qs[0](tf.constant(ws[0]))) if qs[0] is not None else np.asarray(ws[0])
+        if len(ws) > 1 and qs[1] is not None:
+          ws = [ws[0], np.asarray(qs[1](tf.constant(ws[1])))]
+        scale = None
+        if fam == "auto_po2":
+          scale = np.asarray(qs[0].scale, dtype=np.float64)
+          # the reported weight type describes the integer part; the stored weight carries the po2 scale
+          kcodes = kq.astype(np.float64) / np.broadcast_to(scale, kq.shape)
+          check_values(ctx, wt, kcodes, sig, "weight", "weight_values_checked")
+        else:
+          check_values(ctx, wt, kq, sig, "weight", "weight_values_checked")
+        if l.use_bias:
+          bt = ty.from_reported(entry_get(e, "bias_quantizer"))
+          check_values(ctx, bt, ws[1], sig, "bias", "weight_values_checked")
+        acc = entry_get(e, "fused_accumulator") if fam == "auto_po2" else entry_get(e, "accumulator")
+        at = ty.from_reported(acc.output)
+        pre = outs[l.name]
+        # float32 exactness guard: every partial sum must stay below 2^23 LSBs
+        lsb_in = float(np.min(np.abs(ins[l.name][ins[l.name] != 0]))) if np.any(ins[l.name] != 0) else 1.0
+        lsb_w = float(np.min(np.abs(kq[kq != 0]))) if np.any(kq != 0) else 1.0
+        fan_in = int(np.prod(kq.shape[:-1])) if cn != "QDepthwiseConv2D" else int(np.prod(kq.shape[:2]))
+        if np.abs(pre).max() / max(lsb_in * lsb_w, 1e-30) > 2.0 ** 22:
+          ctx.skip("beyond_float32_exactness")
+          continue
+        okv = check_values(ctx, at, pre, sig, "preactivation", "preactivation_values_checked", shifted=(fam == "auto_po2"))
+        # how close did the workload come to the reported range?
+        if at.kind == "fixed" and okv:
+          top = float(ty.vmax(at))
+          m = float(np.abs(pre).max())
+          if m > 0 and top / m < 4.0:
+            near = True
+      elif cn == "QActivation":
+        ot = ty.from_reported(entry_get(e, "output_quantizer"))
+        check_values(ctx, ot, outs[l.name], dict(sig, activation=type(l.quantizer).__name__), "activation", "activation_values_checked")
+  base = base0
   if near:
     ctx.count("near_worst_case_cases")
     ctx.nontrivial(json.dumps(spec, sort_keys=True), pattern)
